@@ -66,3 +66,92 @@ Theorem C17_check_prefix_sound :
               (seq 0 (length row)).
 Proof. exact check_growth_prefix_sound. Qed.
 Print Assumptions C17_check_prefix_sound.
+
+From V Require Import Base Perm Graph GraphProofs Families GrowthFormulas GrowthFormulasTransp.
+
+(* EVERY n: the closed formula datasets.py uses for the adjacent-transposition (Coxeter) graph - the Mahonian numbers - IS its growth function: the number of arrangements at distance k is entry k of the formula *)
+Theorem C17_coxeter_growth_correct :
+  forall (n : nat) (gens : list (list nat -> list nat)),
+         adjacent_swap_gens n gens ->
+         forall k : nat,
+         BinNat.N.of_nat (length (layer (list nat) lnat_eq_dec gens (List.seq 0 n :: nil) k)) =
+         List.nth k (coxeter_growth n) BinNums.N0.
+Proof. exact @coxeter_growth_correct. Qed.
+Print Assumptions C17_coxeter_growth_correct.
+
+(* because the distance from the identity is the number of inversions *)
+Theorem C17_coxeter_distance_is_inversions :
+  forall (n : nat) (gens : list (list nat -> list nat)),
+         adjacent_swap_gens n gens ->
+         forall (t : list nat) (d : nat),
+         dist_is (list nat) gens (List.seq 0 n :: nil) t d <->
+         Permutation.Permutation t (List.seq 0 n) /\ inv t = d.
+Proof. exact @coxeter_distance_is_inversions. Qed.
+Print Assumptions C17_coxeter_distance_is_inversions.
+
+(* the row has n(n-1)/2 + 1 terms, all positive *)
+Theorem C17_coxeter_growth_nonzero_terms :
+  forall n : nat,
+         length (coxeter_growth n) = PeanoNat.Nat.div (n * (n - 1)) 2 + 1 /\
+         List.Forall (fun v : BinNums.N => v <> BinNums.N0) (coxeter_growth n).
+Proof. exact @coxeter_growth_nonzero_terms. Qed.
+Print Assumptions C17_coxeter_growth_nonzero_terms.
+
+(* stated on the library's coxeter(n) generators *)
+Theorem C17_coxeter_growth_correct_families :
+  forall n : nat,
+         2 <= n ->
+         exists d : pdef,
+           coxeter (BinInt.Z.of_nat n) = Ok d /\
+           (forall k : nat,
+            BinNat.N.of_nat
+              (length
+                 (layer (list nat) lnat_eq_dec
+                    (List.map (fun p : list nat => apply_perm 0 p) (p_gens d)) 
+                    (List.seq 0 n :: nil) k)) = List.nth k (coxeter_growth n) BinNums.N0).
+Proof. exact @coxeter_growth_correct_families. Qed.
+Print Assumptions C17_coxeter_growth_correct_families.
+
+(* EVERY n >= 1: the Stirling-number formula IS the growth function of the all-transpositions graph *)
+Theorem C17_all_transpositions_growth_correct :
+  forall (n : nat) (gens : list (list nat -> list nat)),
+         1 <= n ->
+         transposition_gens n gens ->
+         forall k : nat,
+         BinNat.N.of_nat (length (layer (list nat) lnat_eq_dec gens (List.seq 0 n :: nil) k)) =
+         List.nth k (all_transpositions_growth n) BinNums.N0.
+Proof. exact @all_transpositions_growth_correct. Qed.
+Print Assumptions C17_all_transpositions_growth_correct.
+
+(* because the distance is n minus the number of cycles *)
+Theorem C17_all_transpositions_distance_cycles :
+  forall (n : nat) (gens : list (list nat -> list nat)),
+         transposition_gens n gens ->
+         forall (t : list nat) (d : nat),
+         dist_is (list nat) gens (List.seq 0 n :: nil) t d <->
+         Permutation.Permutation t (List.seq 0 n) /\ d + length (cycle_type t) = n.
+Proof. exact @all_transpositions_distance_cycles. Qed.
+Print Assumptions C17_all_transpositions_distance_cycles.
+
+(* stated on the library's all_transpositions(n) generators *)
+Theorem C17_all_transpositions_growth_correct_families :
+  forall n : nat,
+         2 <= n ->
+         exists d : pdef,
+           all_transpositions (BinInt.Z.of_nat n) = Ok d /\
+           (forall k : nat,
+            BinNat.N.of_nat
+              (length
+                 (layer (list nat) lnat_eq_dec
+                    (List.map (fun p : list nat => apply_perm 0 p) (p_gens d)) 
+                    (List.seq 0 n :: nil) k)) = List.nth k (all_transpositions_growth n) BinNums.N0).
+Proof. exact @all_transpositions_growth_correct_families. Qed.
+Print Assumptions C17_all_transpositions_growth_correct_families.
+
+From V Require Import Base GrowthFormulas GrowthFormulasFast.
+
+(* the memoised Stirling row the harness evaluates equals the recursive model of datasets._stirling *)
+Theorem C17_all_transpositions_growth_fast_eq :
+  forall n : nat, all_transpositions_growth_fast n = all_transpositions_growth n.
+Proof. exact @all_transpositions_growth_fast_eq. Qed.
+Print Assumptions C17_all_transpositions_growth_fast_eq.
